@@ -14,5 +14,7 @@ for c in "$@"; do
 done
 cd /repo && git checkout -- . && git clean -fdq -e target
 git -C /repo status --short | head -3
-# regenerate Gen/* for the unchanged tree
+# regenerate Gen/* and rebuild the harness for the unchanged tree (otherwise the next direct use of
+# the harness binary would still run the seeded code)
 cd /verif && python3 extract/extract.py >/dev/null
+(cd /verif/harness && cargo build --offline -q >/dev/null 2>&1)
